@@ -9,7 +9,8 @@ LEVEL_TEXT = (
     " for all input strings (product search, complete); the parser sees only stripped text."
 )
 NOT_DECIDED = "end-to-end equality of findings when comments are blanked (follows from the stripper equivalence, byte-length preservation and the single-reader rule, not decided separately)."
-TRUSTED = ["syn parser", "transducer extractor (rules/transducer.py) over the statement forms it supports (fails closed otherwise)", "reference comment lexer written from the property statement (DESIGN App. C)"]
+ENGINE = "mirfacts+astq"
+TRUSTED = ["rustc MIR (engines/mirfacts) for C05.4", "syn parser", "transducer extractor (rules/transducer.py) over the statement forms it supports (fails closed otherwise)", "reference comment lexer written from the property statement (DESIGN App. C)"]
 TECHNIQUE = "static analysis: state-machine extraction from the syntax tree + product-automaton equivalence with a reference lexer"
 
 PL = "parser/src/parser_logic.rs"
@@ -46,3 +47,8 @@ def run(ctx):
         if not diffs:
             ctx.ok(R, "preprocess/equivalent-to-reference", "no distinguishing string exists: %d product configurations, %d macro transitions explored over alphabet %s" % (stats["product_configurations"], stats["macro_transitions"], stats["alphabet"]), site(PL, fn))
     c04_units.rule_single_reader(ctx, "C05.2")
+    import c04
+    import dropflow
+
+    ctx.include("C05.3", "errors raised for a file are located in the text the parser saw: explicit ranges of parse errors are token positions of the stripped text, which has the length of the original (shared with C04.7)", c04.rule_explicit_ranges)
+    ctx.include("C05.4", "the `unterminated comment` error of a file reaches the report collection on every path (shared with C02.10)", lambda c: dropflow.rule_consumed(c, "C02.10"), only=["parse_file", "parse_files", "preprocess", "floor"])
